@@ -51,6 +51,9 @@ type DelScenario struct {
 	// BelowQueued > 0: that many headers right below the tail are appended immediately before the deletion is
 	// called, so they are still in the write queue when it starts; the range was chosen against the old tail
 	BelowQueued int `json:"below_queued,omitempty"`
+	// AboveQueued > 0: that many headers right above the head are appended immediately before the deletion is called
+	// (still in the write queue when it starts); a range that reached the head is extended over them
+	AboveQueued int `json:"above_queued,omitempty"`
 }
 
 var delContKinds = []string{"append_next", "append_next", "sync", "settle", "restart_new", "restart_stopstart", "append_repeat", "append_fill"}
@@ -80,6 +83,9 @@ func genDel(t *rapid.T, faulty bool) DelScenario {
 	}
 	if s.Base > 1 && rapid.IntRange(0, 5).Draw(t, "belowq") == 0 {
 		s.BelowQueued = rapid.IntRange(1, int(min(s.Base-1, 3))).Draw(t, "belowqueued")
+	}
+	if s.BelowQueued == 0 && rapid.IntRange(0, 5).Draw(t, "aboveq") == 0 {
+		s.AboveQueued = rapid.IntRange(1, 3).Draw(t, "abovequeued")
 	}
 	nh := rapid.IntRange(0, 3).Draw(t, "nhandlers")
 	for i := 0; i < nh; i++ {
@@ -353,6 +359,51 @@ func runDel(t *testing.T, s DelScenario) (r08, r14 Result) {
 			obs.Valid, obs.Whole = valid, whole
 			belowQueued = true
 			r08.label("older_headers_queued_at_the_call")
+		}
+
+		if s.AboveQueued > 0 && e.m.has && e.m.maxStored() == e.m.H && e.m.H+uint64(s.AboveQueued)+uint64(s.Cfg.Batch)+2 < uint64(len(e.chain.Headers)) {
+			// newer headers arrive and are queued right when the deletion is called; a deletion up to the head covers them
+			oldH := e.m.H
+			// keep the flush loop busy first: a filler batch that fills the write batch is written out through one slow
+			// datastore write, so that the new headers AND the deletion's own Sync request are both waiting when the
+			// flush loop comes back to its select
+			filler := e.chain.Range(oldH+1, oldH+1+uint64(s.Cfg.Batch))
+			var once sync.Once
+			e.mem.Yield = func(p string) {
+				if p == "ds:write" {
+					once.Do(func() { time.Sleep(time.Millisecond) })
+				}
+			}
+			defer func() { e.mem.Yield = nil }()
+			if err := e.st.Append(ctx, filler...); err != nil {
+				fail08("Append above the head failed: %v", err)
+				return
+			}
+			e.m.appendBatch(heightsOf(filler))
+			for _, h := range filler {
+				before[h.H] = true
+			}
+			synctest.Wait()
+			hs := e.chain.Range(e.m.H+1, e.m.H+1+uint64(s.AboveQueued))
+			if err := e.st.Append(ctx, hs...); err != nil {
+				fail08("Append above the head failed: %v", err)
+				return
+			}
+			e.m.appendBatch(heightsOf(hs))
+			for _, h := range hs {
+				before[h.H] = true
+			}
+			if to == oldH+1 {
+				to = e.m.H + 1
+				obs.To = to
+				mu.Lock()
+				delTo = to
+				mu.Unlock()
+			}
+			valid, whole = e.m.deleteValid(from, to)
+			obs.Valid, obs.Whole = valid, whole
+			belowQueued = true // (the key-set clause of a rejected call: the queued headers may be written out meanwhile)
+			r08.label("newer_headers_queued_at_the_call")
 		}
 
 		dctx, dcancel := ctx, context.CancelFunc(func() {})
